@@ -19,6 +19,7 @@ func mv(s int, ps []int, mb int) Op    { return Op{Kind: "cmd", S: s, Cmd: "move
 func fb(s int, c string, ps ...int) Op { return Op{Kind: "cmd", S: s, Cmd: c, Ps: ps} }
 func drain(s int) Op                   { return Op{Kind: "drain", S: s} }
 func dl(s int) Op                      { return Op{Kind: "deliver", S: s} }
+func qs(s int) Op                      { return Op{Kind: "quiesce", S: s} } // deliver all, NOOP, probe, compare with a fresh session
 
 func Corpus() []Scenario {
 	return []Scenario{
@@ -40,6 +41,10 @@ func Corpus() []Scenario {
 		{Name: "readd-while-held", K: 2, Ops: []Op{ // message removed and put back while the observer only runs FETCH
 			sel(0, 0), sel(1, 0), app(0, 0), app(0, 0), drain(1), cmd(1, "noop"), cmd(1, "probe"),
 			mv(0, []int{1}, 1), sel(0, 1), mv(0, []int{1}, 0), drain(1), cmd(1, "probe"), cmd(1, "search"), cmd(1, "noop"), cmd(1, "probe")}},
+		{Name: "readd-while-held-then-flags", K: 2, Ops: []Op{ // as above, then a flag change on the new instance while the removal is still held
+			sel(0, 0), sel(1, 0), app(0, 0), app(0, 0), drain(1), cmd(1, "noop"), cmd(1, "probe"),
+			mv(0, []int{1}, 1), sel(0, 1), mv(0, []int{1}, 0), sel(0, 0), store(0, []int{2}, "add", false, 3),
+			drain(1), cmd(1, "search"), cmd(1, "probe"), qs(1)}},
 		{Name: "idle-bulk", K: 2, Bulk: true, Ops: []Op{
 			sel(0, 0), sel(1, 0), cmd(1, "idle"), app(0, 0), app(0, 0, 2), drain(1), store(0, []int{1}, "add", false, 3), drain(1),
 			cmd(1, "done"), cmd(1, "probe")}},
